@@ -56,6 +56,20 @@ def generate(rng, tier):
                         cases.append(W.mk_case("C03", route, "ok", nb, na, us, eh, False, prog))
     for ctor in ("exc~5", "ab~400~0~0", "conn"):
         cases.append(W.mk_case("C03", "hit", ctor, 2, 2, [], [], False, {}))
+    # built-in exception classes (the ones `except` clauses of the framework itself name) raised by a before hook, the
+    # endpoint or an after hook, on every request kind, with and without a catch-all exception handler
+    for route in W.ROUTES:
+        for cls in sorted(W.BUILTIN_EXC):
+            for role in ("b0", "b1", "e", "a0"):
+                if role == "e" and route not in W.ENDPOINT_ROUTES:
+                    continue
+                if tier != "thorough" and rng.random() > 0.5:
+                    continue
+                eh = [9] if rng.random() < 0.5 else []
+                prog = {role: "exc~%d" % cls}
+                if eh:
+                    prog["x0"] = "ret~S78"
+                cases.append(W.mk_case("C03", route, "ok", 2, 2, [], eh, False, prog))
     # what the first after hook is handed when the response came out of a chain of handlers: the endpoint (or an
     # earlier after hook) raises, the exception handler aborts with a status, the status handler returns a plain
     # value - every shape an endpoint may return
